@@ -145,11 +145,19 @@ func VH_C07_MapBytes() {
 	vhAssert(err == nil, "new map")
 	n := vhChoose("n", vhParam("keys", 2)+1)
 	for i := 0; i < n; i++ {
+		var key Value
 		k := vBKey{val: uint64(i + 1)}
 		for l := range k.d {
 			k.d[l] = vhU64("dig")
 		}
 		b.known[k.val] = k.d
+		key = k
+		if i == 0 && vhChoose("bigkey", 2) == 1 {
+			// key too large to inline: stored as a reference to a storable slab
+			bk := vBlobKey{n: 150, d: k.d}
+			b.known[uint64(1<<32)+150] = k.d
+			key = bk
+		}
 		var val Value
 		switch vhChoose("valkind", 5) {
 		case 0:
@@ -167,7 +175,7 @@ func VH_C07_MapBytes() {
 			}
 			val = c
 		}
-		_, err := m.Set(vhCompareB, vhHip, k, val)
+		_, err := m.Set(vhCompareBK, vhHip, key, val)
 		vhAssert(err == nil, "set")
 	}
 	verr := VerifyMap(m, addr, vTypeInfo{id: 42}, vhTic, vhHip, true)
